@@ -58,14 +58,19 @@ func dialRaw(sock string, sc script, release chan struct{}) (*rawPlugin, error) 
 }
 
 // run performs the scripted handshake; it returns when the registration step is over.
+// The connection-level fields are written under p.mu: a peer whose registration step never ends
+// (the runtime does not serve it) is shut down from the outside by the driver.
 func (p *rawPlugin) run() {
 	defer close(p.done)
 	if p.sc.Reg == "close" {
 		p.conn.Close()
 		return
 	}
-	p.mux = multiplex.Multiplex(p.conn)
-	l, err := p.mux.Listen(multiplex.PluginServiceConn)
+	mux := multiplex.Multiplex(p.conn)
+	p.mu.Lock()
+	p.mux = mux
+	p.mu.Unlock()
+	l, err := mux.Listen(multiplex.PluginServiceConn)
 	if err != nil {
 		p.setRegErr(err)
 		return
@@ -75,14 +80,16 @@ func (p *rawPlugin) run() {
 		p.setRegErr(err)
 		return
 	}
-	p.srv = srv
 	api.RegisterPluginService(srv, p)
-	cconn, err := p.mux.Open(multiplex.RuntimeServiceConn)
+	cconn, err := mux.Open(multiplex.RuntimeServiceConn)
 	if err != nil {
 		p.setRegErr(err)
 		return
 	}
-	p.client = ttrpc.NewClient(cconn, ttrpc.WithOnClose(func() { p.once.Do(func() { close(p.closed) }) }))
+	client := ttrpc.NewClient(cconn, ttrpc.WithOnClose(func() { p.once.Do(func() { close(p.closed) }) }))
+	p.mu.Lock()
+	p.srv, p.client = srv, client
+	p.mu.Unlock()
 	go srv.Serve(context.Background(), l)
 
 	switch p.sc.Reg {
@@ -97,7 +104,7 @@ func (p *rawPlugin) run() {
 	}
 	ctx, cancel := context.WithTimeout(context.Background(), 120*time.Second)
 	defer cancel()
-	rt := api.NewRuntimeClient(p.client)
+	rt := api.NewRuntimeClient(client)
 	_, err = rt.RegisterPlugin(ctx, &api.RegisterPluginRequest{PluginName: p.sc.Name, PluginIdx: p.sc.Idx})
 	p.mu.Lock()
 	p.obs.RegOK = err == nil
@@ -113,15 +120,20 @@ func (p *rawPlugin) setRegErr(err error) {
 	p.mu.Unlock()
 }
 
+// shutdown closes the peer's end; safe to call more than once and while run() is still blocked
+// (closing the client makes a pending RegisterPlugin call return).
 func (p *rawPlugin) shutdown() {
-	if p.client != nil {
-		p.client.Close()
+	p.mu.Lock()
+	client, srv, mux := p.client, p.srv, p.mux
+	p.mu.Unlock()
+	if client != nil {
+		client.Close()
 	}
-	if p.srv != nil {
-		p.srv.Close()
+	if srv != nil {
+		srv.Close()
 	}
-	if p.mux != nil {
-		p.mux.Close()
+	if mux != nil {
+		mux.Close()
 	}
 	p.conn.Close()
 }
